@@ -108,10 +108,12 @@ static int cfg_parse(const char *s, cfg_t *c)
 }
 
 /* which server certificate types fit a suite at all (RFC semantics, not stack limits) */
-static int cert_fits(const mx_suite_t *s, int ct)
+static int cert_fits(const mx_suite_t *s, int ct, int ver)
 {
     if (s->auth == MX_AUTH_PSK) return ct == CT_NONE;
     if (ct == CT_NONE) return 0;
+    /* RSASSA-PSS keys and Ed25519 have no defined signature format before TLS 1.2 (RFC 8446 4.2.3, RFC 8422 5.10) */
+    if ((ver == MX_TLS11 || ver == MX_DTLS10) && (ct == CT_PSS || ct == CT_ED25519)) return 0;
     if (s->tls13) return 1;
     if (s->auth == MX_AUTH_ECDSA) return cert_is_ecdsa(ct) || ct == CT_ED25519;
     if (suite_is_ecdhe(s)) return cert_is_rsa(ct);
@@ -219,6 +221,21 @@ static void o_drive(conn_t *k)
         }
     }
 }
+/* verbose wire trace: one line per record */
+static void trace_wire(conn_t *k, const char *dir, const unsigned char *b, int n)
+{
+    if (!vf_verbose) return;
+    int off = 0; mx_rec r;
+    while (off < n && mx_rec_at(b, n, off, k->dtls, &r)) {
+        fprintf(stderr, "    %s rec type=%d ver=%02x%02x epoch=%d seq=%llu len=%d", dir, r.type, r.vmaj, r.vmin, r.epoch, r.seq, r.len);
+        if (r.type == 22 && r.epoch == 0 && r.len >= 4) fprintf(stderr, " hs=%d", b[off + r.hdr]);
+        if (r.type == 22 && r.epoch == 0 && r.len >= 4 && getenv("C10_HEX")) { fprintf(stderr, " "); for (int i = 0; i < r.len; i++) fprintf(stderr, "%02x", b[off + r.hdr + i]); }
+        if (r.type == 21 && r.len == 2) fprintf(stderr, " alert=%d/%d", b[off + r.hdr], b[off + r.hdr + 1]);
+        fprintf(stderr, "\n");
+        off += r.hdr + r.len;
+    }
+    if (off < n) fprintf(stderr, "    %s +%d bytes (partial record)\n", dir, n - off);
+}
 /* MatrixSSL -> OpenSSL: every GetOutdata result is one datagram (DTLS) or a piece of the stream */
 static int move_m2o(conn_t *k)
 {
@@ -229,6 +246,7 @@ static int move_m2o(conn_t *k)
         mx_actor = e->id; e->calls++;
         int n = k->dtls ? matrixDtlsGetOutdata(e->ssl, &ob) : matrixSslGetOutdata(e->ssl, &ob);
         if (n <= 0) { if (n < 0) { e->dead = 1; e->lastrc = n; } break; }
+        trace_wire(k, "mx->os", ob, n);
         q_push(&k->Q.in, ob, n); tot += n;
         mx_actor = e->id; e->calls++;
         int rc = k->dtls ? matrixDtlsSentData(e->ssl, n) : matrixSslSentData(e->ssl, n);
@@ -244,11 +262,12 @@ static int move_o2m(conn_t *k)
 {
     int tot = 0;
     if (k->dtls) {
-        while (k->Q.out.h) { qnode *x = k->Q.out.h; tot += x->n; if (!k->M.dead) mx_feed(&k->M, x->d, x->n); q_pop(&k->Q.out); }
+        while (k->Q.out.h) { qnode *x = k->Q.out.h; tot += x->n; trace_wire(k, "os->mx", x->d, x->n); if (!k->M.dead) mx_feed(&k->M, x->d, x->n); q_pop(&k->Q.out); }
         return tot;
     }
     unsigned char *buf = NULL; int n = 0;
     while (k->Q.out.h) { qnode *x = k->Q.out.h; buf = realloc(buf, n + x->n + 1); memcpy(buf + n, x->d, x->n); n += x->n; q_pop(&k->Q.out); }
+    if (n > 0 && n < 3000) trace_wire(k, "os->mx", buf, n);
     if (n > 0 && !k->M.dead) mx_feed_chunked(&k->M, buf, n, k->c->chunk);
     free(buf);
     return n;
@@ -421,11 +440,15 @@ static int m_session_new(conn_t *k, sslKeys_t *keys, sslSessionId_t *sid, const 
             if (matrixSslSessOptsSetKeyExGroups(&o, gl, n, 1) < 0) { *why = "mx_lacks_group"; return -1; }
         } else {
             int gi = group_idx(c->g1);
-            if (!groups[gi].ecflag) { *why = "mx_tls12_group_not_selectable"; return -1; }
             o.ecFlags = groups[gi].ecflag;
             if (cert_is_ecdsa(c->cert)) o.ecFlags |= groups[group_idx(certs[c->cert].curve)].ecflag;
             if (cert_is_ecdsa(c->cauth)) o.ecFlags |= groups[group_idx(certs[c->cauth].curve)].ecflag;
         }
+    }
+    if (!s->tls13 && !server && c->cert == CT_PSS) {
+        /* MatrixSSL's default TLS 1.2 signature_algorithms omit rsa_pss_pss_*; the public API opts in */
+        uint16_t sa[] = { sigalg_rsa_pss_pss_sha256, sigalg_rsa_pss_pss_sha384, sigalg_rsa_pss_pss_sha512, sigalg_rsa_pss_rsae_sha256, sigalg_rsa_pkcs1_sha256, sigalg_rsa_pkcs1_sha384, sigalg_ecdsa_secp256r1_sha256 };
+        if (matrixSslSessOptsSetSigAlgs(&o, sa, 7) < 0) { *why = "mx_lacks_rsa_pss_pss_sigalg"; return -1; }
     }
     memset(e, 0, sizeof *e); e->role = server ? MX_SERVER : MX_CLIENT; e->ver = c->ver; e->id = server ? 1 : 0; e->name = server ? "S" : "C";
     mx_actor = e->id;
@@ -616,7 +639,21 @@ static void conn_free(conn_t *k)
  * reason; they are counted, never passed.  (Determined on the unchanged tree; see the report.) */
 static const char *static_gap(const cfg_t *c)
 {
-    (void) c;
+    const mx_suite_t *s = &mx_suites[c->suite];
+    if (!s->tls13) {
+        /* tlsSigVer.c (the <= 1.2 signature code) knows RSA PKCS#1, RSA-PSS verification and ECDSA only:
+           an Ed25519 certificate is answered with unsupported_certificate, an Ed25519 identity is never offered */
+        if (c->cert == CT_ED25519 || c->cauth == CT_ED25519) return "mx_lacks_ed25519_below_tls13";
+        /* an rsassaPss key is never selected as own credential below TLS 1.3 (server: handshake_failure,
+           client: empty Certificate), and a <= 1.2 MatrixSSL server's CertificateRequest does not admit it */
+        if (c->cert == CT_PSS && c->role == R_MXS) return "mx_no_rsa_pss_key_use_below_tls13";
+        if (c->cauth == CT_PSS) return c->role == R_MXC ? "mx_no_rsa_pss_key_use_below_tls13" : "mx_no_rsa_pss_client_cert_below_tls13";
+        /* OpenSSL 3.0 ssl_set_masks() enables aRSA for an RSA-PSS-only certificate only when TLS1_get_version()==TLS1_2_VERSION,
+           which is never true for DTLS: its DTLS 1.2 server answers "no shared cipher" even to itself */
+        if (c->cert == CT_PSS && MX_IS_DTLS(c->ver)) return "openssl_no_rsa_pss_cert_in_dtls";
+        /* the <= 1.2 ClientHello never lists x25519 and the server never picks it (no ecFlags bit) */
+        if (suite_is_ecdhe(s) && c->g1 == 29) return "mx_lacks_x25519_below_tls13";
+    }
     return NULL;
 }
 
@@ -684,6 +721,7 @@ static void run_config(void *arg)
         vf_sample("%s -> version %s suite %04x group %d ems %d, resumed(second) %s", SPEC, mx_vername[R1.mver], R1.msuite, s->tls13 ? R1.mgroup : R1.ogroup, R1.mems, (c->res != RS_NONE && c->res != RS_EXTPSK) ? "yes" : "n/a");
     }
 out:
+    vf_flush();   /* keep this case's records even if teardown trips a sanitizer */
     if (o_saved) { SSL_SESSION_free(o_saved); o_saved = NULL; }
     if (sid) matrixSslDeleteSessionId(sid);
     matrixSslDeleteKeys(mk);
@@ -726,7 +764,7 @@ static void enumerate_quick(void)
             int pick = 0;
 #define REP() base_cfg(role, v, cand[(rot + pick++) % nc])
             const mx_suite_t *s0 = &mx_suites[cand[0]]; cfg_t c;
-            for (int ct = 1; ct < CT_N; ct++) if (ct != CT_RSA3072 && cert_fits(s0, ct) && ct != default_cert(s0)) { c = REP(); c.cert = ct; add_cfg(c); }
+            for (int ct = 1; ct < CT_N; ct++) if (ct != CT_RSA3072 && cert_fits(s0, ct, v) && ct != default_cert(s0)) { c = REP(); c.cert = ct; add_cfg(c); }
             if (s0->tls13 || suite_is_ecdhe(s0)) for (int g = 1; g <= 4; g++) { c = REP(); c.g0 = c.g1 = groups[g].id; add_cfg(c); }
             if (s0->tls13) for (int h = 0; h < 2; h++) { c = REP(); c.g0 = hrr_pairs[h][0]; c.g1 = hrr_pairs[h][1]; add_cfg(c); }
             if (s0->auth != MX_AUTH_PSK) { c = REP(); c.cauth = CT_RSA; add_cfg(c); c = REP(); c.cauth = CT_EC256; add_cfg(c); }
@@ -743,7 +781,7 @@ static void enumerate_thorough(void)
         const mx_suite_t *s = &mx_suites[si];
         if (!mx_suite_ok_for(s, v)) continue;
         for (int ct = 0; ct < CT_N; ct++) {
-            if (!cert_fits(s, ct)) continue;
+            if (!cert_fits(s, ct, v)) continue;
             /* groups: relevant for ECDHE and TLS 1.3 only */
             int gl[16][2], ng = 0;
             gl[ng][0] = gl[ng][1] = 0; ng++;
@@ -773,6 +811,17 @@ static void enumerate_thorough(void)
     }
 }
 
+/* matrixsslConfig.h also enables the static-ECDH suites; OpenSSL 3 has none of them */
+static void static_ecdh_suites(void *arg)
+{
+    static const uint16_t ids[] = { 0xc004, 0xc005, 0xc025, 0xc026, 0xc02d, 0xc02e, 0xc00e, 0xc00f, 0xc029, 0xc02a, 0xc031, 0xc032 };
+    (void) arg;
+    for (unsigned i = 0; i < sizeof ids / sizeof ids[0]; i++) {
+        if (!o_suite_name(0, 0, ids[i])) { vf_stat("not_mutually_supported", 1); vf_stat("not_mutually_supported_openssl_lacks_static_ecdh", 1); }
+        else vf_incon("OpenSSL implements static-ECDH suite %04x which this check does not exercise", ids[i]);
+    }
+}
+
 int main(int argc, char **argv)
 {
     vf_init(argc, argv);
@@ -792,7 +841,7 @@ int main(int argc, char **argv)
         char spec[400]; cfg_spec(&CF[i], spec, sizeof spec);
         vf_fork_case(run_config, &CF[i], "interop", spec, 120);
     }
-    if (vf_shard == 0) vf_stat("configurations_enumerated", ncf);
+    if (vf_shard == 0) { vf_stat("configurations_enumerated", ncf); vf_fork_case(static_ecdh_suites, NULL, "interop", "static-ecdh-suites", 60); }
     vf_flush();
     return 0;
 }
